@@ -5,10 +5,12 @@
 
 from __future__ import annotations
 
+from collections.abc import Callable
 from http import HTTPStatus
 from typing import Any
 
 import pyarrow as pa
+from pyarrow import ipc
 
 from vgi_rpc._codec import (
     DecompressionError,
@@ -196,9 +198,19 @@ _VGI_LOGO_HTML = """\
 class _RpcHttpError(Exception):
     """Internal exception for HTTP-layer errors with status codes."""
 
-    __slots__ = ("cause", "schema", "status_code")
+    __slots__ = ("cause", "schema", "status_code", "write_logs")
 
-    def __init__(self, cause: BaseException, *, status_code: HTTPStatus, schema: pa.Schema = _EMPTY_SCHEMA) -> None:
+    def __init__(
+        self,
+        cause: BaseException,
+        *,
+        status_code: HTTPStatus,
+        schema: pa.Schema = _EMPTY_SCHEMA,
+        write_logs: Callable[[ipc.RecordBatchStreamWriter, pa.Schema], None] | None = None,
+    ) -> None:
         self.cause = cause
         self.status_code = status_code
         self.schema = schema
+        # Writes the client logs the failed call emitted before it raised; they
+        # are delivered ahead of the error batch in the error response stream.
+        self.write_logs = write_logs
